@@ -566,8 +566,7 @@ Proof.
   assert (Hsk : (length (skipn (Z.to_nat OPEN_FIXED) b) <= length b)%nat) by (rewrite skipn_length; lia).
   revert Hsk. generalize (skipn (Z.to_nat OPEN_FIXED) b) as d. intros d Hsk.
   unfold optparams. destruct d as [|ol t]; [cbn; split; [exact I|lia]|].
-  destruct ((ol =? EXTENDED_LENGTH) && (len (ol :: t) <? 4)); [cbn; split; [reflexivity|lia]|].
-  destruct ((ol =? EXTENDED_LENGTH) && (nth 1 (ol :: t) 0 =? EXTENDED_LENGTH)).
+  destruct (ext_selected (ol :: t)).
   - destruct (len (ol :: t) <? rd16 (skipn 2 (ol :: t)) + 4); [cbn; split; [reflexivity|lia]|].
     set (p := firstn (Z.to_nat (rd16 (skipn 2 (ol :: t)))) (skipn 4 (ol :: t))).
     destruct (params_f_facts capv Hc true (length p) p (le_n _)) as [P1 P2].
